@@ -100,7 +100,15 @@ fn run_behaviour(route: &str, ivs: &[Iv], chars: &[u32], sets: &[Iv]) -> Value {
             _ => {
                 let list: Vec<CharSet> = ivs.iter().map(|&(a, b)| CharSet::range(a, b)).collect();
                 let r1 = CharPartition::try_from_list(&list);
-                let r2 = CharPartition::try_from_iter(list.iter().copied());
+                // try_from_iter takes any IntoIterator: exact size hint, lower bound 0 (filter), unknown size (from_fn)
+                let r2 = match ivs.len() % 3 {
+                    0 => CharPartition::try_from_iter(list.iter().copied()),
+                    1 => CharPartition::try_from_iter(list.iter().copied().filter(|_| true)),
+                    _ => {
+                        let mut it = list.clone().into_iter();
+                        CharPartition::try_from_iter(std::iter::from_fn(move || it.next()))
+                    }
+                };
                 let same = match (&r1, &r2) {
                     (Ok(x), Ok(y)) => x == y,
                     (Err(x), Err(y)) => x == y,
